@@ -36,12 +36,12 @@ thread_local! {
 
 /// Called from harness code and (through the fn pointer installed in
 /// `tensor_store::verif_hooks`) from /repo hook sites.
-pub fn yield_point(site: &'static str) {
-    let me = ME.with(|m| m.borrow().clone());
+pub fn yield_point(site: &'static str) -> bool {
+    let me = ME.try_with(|m| m.borrow().clone()).ok().flatten();
     if let Some((b, i)) = me {
         let mut g = b.m.lock().unwrap();
         if g.turn == Turn::FreeRun {
-            return;
+            return false;
         }
         g.site_of[i] = site;
         g.turn = Turn::Controller;
@@ -49,7 +49,14 @@ pub fn yield_point(site: &'static str) {
         while g.turn != Turn::Thread(i) && g.turn != Turn::FreeRun {
             g = b.cv.wait(g).unwrap();
         }
+        return g.turn != Turn::FreeRun;
     }
+    false
+}
+
+/// Install `yield_point` as the /repo schedule-point hook (idempotent).
+pub fn install_repo_hook() {
+    tensor_store::verif_hooks::install(yield_point);
 }
 
 /// True when the calling thread runs under the baton scheduler.
